@@ -261,6 +261,9 @@ class Result:
 from pyvc.solve import discharge, discharge_batch, feasible
 
 
+SELFCHECK_N = int(os.environ.get('PYVC_SELFCHECK', '1'))
+
+
 def verify_slot(clsname, machine, tn, index, want=('safety', 'func', 'timing'), timeout_ms=None):
     """Verify one slot. Returns a picklable dict."""
     t_start = time.time()
@@ -281,6 +284,13 @@ def verify_slot(clsname, machine, tn, index, want=('safety', 'func', 'timing'), 
             out['paths'] += len(paths)
             for pi, st in enumerate(paths):
                 check_path(mach, run, st, pi, tracer, prefix, out, want, timeout_ms)
+            if SELFCHECK_N:
+                try:
+                    n_sc, bad_sc = engine_selfcheck(mach, tn, index, tracer, paths, SELFCHECK_N, 0)
+                except Exception:
+                    n_sc, bad_sc = 0, [('selfcheck crashed: ' + traceback.format_exc()[-400:], None)]
+                out['selfcheck'] = out.get('selfcheck', 0) + n_sc
+                out.setdefault('selfcheck_bad', []).extend(bad_sc[:2])
     except Refuse as ex:
         out['refused'] = str(ex)
     except poly.Overflow as ex:
@@ -481,6 +491,15 @@ from props.simconc import Tracer as _Tracer, random_case, compare as _compare, A
 def concrete_run(case, fill=0):
     """Run the real closure of case['table'][case['index']] once on the concrete
     state of `case`; compare with the spec evaluated on ints. Returns diffs."""
+    r = concrete_exec(case)
+    if r is None:
+        return []
+    mach, sim, exc, got, flat0, flat1, log = r
+    return exc + _compare(case, mach.cmio, got, flat0, flat1, log, sim.frame_duration, sim.int_active)
+
+
+def concrete_exec(case):
+    """Run the real closure once; returns (machine, sim, exception diffs, registers, memory before, memory after, port log)."""
     mach = get_machine(case['cls'], case['machine'])
     sim = mach.new_sim()
     mem = sim.memory
@@ -501,7 +520,7 @@ def concrete_run(case, fill=0):
         sim.set_tracer(tr)
     tn, index = case['table'], case['index']
     if (tn, index) in DISPATCH:
-        return []
+        return None
     exc = []
     try:
         getattr(sim, tn)[index]()
@@ -509,7 +528,69 @@ def concrete_run(case, fill=0):
         exc = [('exception', repr(ex))]
     got = list(sim.registers)
     flat1 = [mem[a] for a in range(65536)] if case['machine'] == 128 else list(mem)
-    return exc + _compare(case, mach.cmio, got, flat0, flat1, tr.log, sim.frame_duration, sim.int_active)
+    return mach, sim, exc, got, flat0, flat1, tr.log
+
+
+def engine_selfcheck(mach, tn, index, tracer, paths, n, seed):
+    """Soundness guard for the encoding itself: for n concrete pre-states, the
+    symbolic post-state of the (unique) path whose condition holds, evaluated
+    under that assignment (with every opaque function revealed), must equal
+    what CPython computes by running the real closure."""
+    from pyvc.solve import mk_solver
+    bad = []
+    if (tn, index) in DISPATCH or len(paths) > 16:
+        return 0, bad       # the block-I/O closures have dozens of paths: too costly here, they are covered by the concrete differential
+    rnd = random.Random('%s/self/%s/%s/%s/%s/%s' % (seed, mach.clsname, mach.machine, tn, index, tracer))
+    done = 0
+    for k in range(n):
+        case = random_case(rnd, mach.clsname, mach.machine, tn, index, tracer)
+        r = concrete_exec(case)
+        if r is None:
+            continue
+        _, sim, exc, got, flat0, flat1, log = r
+        if exc:
+            continue
+        matched = 0
+        for st in paths:
+            if st.cut or st.raised is not None or len(st.reglist.items) != 30:
+                continue
+            s = mk_solver(20000)
+            for i in range(30):
+                s.add(st.regs0[i].t == case['regs'][i])
+            s.add(st.o7ffd.t == case['o7ffd'], st.inval.t == case['inval'])
+            arr = z3.K(z3.BitVecSort(poly.W), poly.bvv(0))
+            for a in range(65536):
+                pass
+            cells = {a: v for a, v in enumerate(flat0) if v}
+            for a, v in cells.items():
+                arr = z3.Store(arr, poly.bvv(a), poly.bvv(v))
+            s.add(st.mem.arr0 == arr)
+            s.add(st.facts)
+            s.add(poly.reveal(st.defs))
+            s.add(st.pc)
+            if s.check() != z3.sat:
+                continue
+            matched += 1
+            if matched > 1:
+                break
+            m = s.model()
+            for i in range(30):
+                v = m.eval(sv(st.reglist.items[i]).t, model_completion=True).as_long()
+                if v >= 1 << (poly.W - 1):
+                    v -= 1 << poly.W
+                if v != got[i]:
+                    bad.append(('register %s: engine %d, CPython %d' % (Z.REGNAMES[i], v, got[i]), case))
+            for a, _v in st.mem.writes:
+                av = m.eval(a.t, model_completion=True).as_long()
+                mv = m.eval(z3.Select(st.mem.arr, a.t), model_completion=True).as_long()
+                if 0 <= av < 65536 and mv != flat1[av]:
+                    bad.append(('memory[%d]: engine %d, CPython %d' % (av, mv, flat1[av]), case))
+        if matched != 1:
+            bad.append(('%d paths match a concrete state (expected exactly 1)' % matched, case))
+        done += 1
+        if bad:
+            break
+    return done, bad
 
 
 def crosscheck_slot(clsname, machine, tn, index, n, seed):
